@@ -99,5 +99,119 @@ def run_c26(v):
 # ------------------------------------------------------------------------------------------------
 # C25
 # ------------------------------------------------------------------------------------------------
+MCF_CFG = """SPECIFICATION Spec
+CONSTANTS
+  IdSet = {ids}
+  MaxOps = {ops}
+  Variant = "{variant}"
+  PrintCases = {print}
+  Rejections = {rej}
+{tail}
+CHECK_DEADLOCK FALSE
+"""
+MCF_INVS = "VIEW View\nINVARIANT EventualAgree\nINVARIANT CommittedAgree\nINVARIANT FfiLogHoldsDeletesOnly"
+
+
+def build_cli():
+    """The shipped CLI binary (default features, no verification cfg), built from /repo's tree."""
+    tdir = os.path.join(lib.VERIF, ".build", "cli")
+    cmd = ["cargo", "build", "--release", "--offline", "-p", "searchlite-cli",
+           "--manifest-path", "/repo/Cargo.toml", "--target-dir", tdir]
+    rc, out, dt = lib.sh(cmd, cwd=lib.VERIF, timeout=3600, env={"CARGO_NET_OFFLINE": "true"})
+    binary = os.path.join(tdir, "release", "searchlite-cli")
+    if rc != 0 or not os.path.exists(binary):
+        raise lib.ToolError("searchlite-cli build failed:\n" + out[-4000:])
+    lib.log(f"searchlite-cli built in {dt:.1f}s")
+    return binary
+
+
+def _mc_frontends(v):
+    quick = v.tier == "quick"
+    ops = 4 if quick else 7
+    cfg = lib.write_cfg("MC_Frontends_ideal.cfg", MCF_CFG.format(
+        ids='{"a", "b"}', ops=ops, variant="ideal", print="FALSE", rej="TRUE", tail=MCF_INVS))
+    res = lib.tlc_mc("MC_Frontends.tla", cfg, timeout=3000, xmx="8g")
+    lib.require_mc_ok(res, "MC_Frontends", need_actions=["DoAdd1", "DoAdd2", "DoRejected", "DoDelete", "DoCommit"])
+    refuted = []
+    for variant in ("S23a", "ffi_commit_own_doc"):
+        c = lib.write_cfg(f"MC_Frontends_{variant}.cfg", MCF_CFG.format(
+            ids='{"a", "b"}', ops=4, variant=variant, print="FALSE", rej="TRUE", tail=MCF_INVS))
+        r = lib.tlc_mc("MC_Frontends.tla", c, timeout=900, coverage=False)
+        lib.expect_mc_violation(r, f"MC_Frontends Variant={variant}", {"EventualAgree", "CommittedAgree"})
+        refuted.append(variant)
+    res["refuted"] = refuted
+    res["bounds"] = f"2 ids, <= {ops} operations (add/update of 1-2 documents, rejected document, delete, commit, compact), executions lib/cli/http/ffi"
+    return res
+
+
+def _sim_histories(v, num, depth, path):
+    """S->I: TLC simulates MC_Frontends and prints complete histories (with and without rejected
+    documents); the driver replays them through every front end."""
+    msgs = []
+    for rej in ("TRUE", "FALSE"):
+        cfg = lib.write_cfg(f"MC_Frontends_sim_{rej}.cfg", MCF_CFG.format(
+            ids='{"a", "b", "c"}', ops=depth, variant="ideal", print="TRUE", rej=rej,
+            tail="INVARIANT PrintCase"))
+        res = lib.tlc_mc("MC_Frontends.tla", cfg, workers=1, simulate=max(1, num // 2), depth=depth + 1,
+                         seed=v.seed, timeout=900)
+        if res["rc"] != 0:
+            raise lib.ToolError("MC_Frontends simulation failed\n" + res["raw"][-2000:])
+        msgs += res["msgs"]
+    # TLC evaluates the printing invariant on every candidate successor of the last step: keep one
+    # history per distinct prefix
+    seen, keep = set(), []
+    for m in msgs:
+        if m.get("_tag") != "CASE":
+            continue
+        key = json.dumps(m.get("ops", [])[:-1], sort_keys=True)
+        if key not in seen:
+            seen.add(key)
+            keep.append(m)
+    return lib.write_cases(keep, "CASE", path)
+
+
 def run_c25(v):
-    raise lib.ToolError("C25 not implemented yet")
+    quick = v.tier == "quick"
+    binary = lib.build_harness()
+    cli = build_cli()
+    mc = _mc_frontends(v)
+    cases = lib.outpath("cases", "C25-histories.ndjson")
+    ncases = _sim_histories(v, 4 if quick else 60, 12 if quick else 24, cases)
+    trace = lib.outpath(v.prop, "frontends.ndjson")
+    s = lib.svh(binary, ["frontends", "--seed", v.seed, "--out", trace, "--cli", cli, "--cases", cases,
+                         "--scenarios", 6 if quick else 120], timeout=6000, env=WORK_ENV)
+    msgs, dt, _ = lib.tlc_trace("Trace_Frontends.tla", trace, timeout=6000)
+    tool = [m for m in msgs if m.get("kind") == "TOOL"]
+    if tool:
+        raise lib.ToolError("driver and Frontends.tla disagree on what an invocation denotes: " + json.dumps(tool[:3]))
+    lib.judge_trace(v, msgs, {"C25"})
+    stats = next((m for m in msgs if m.get("kind") == "STATS"), {})
+    if not stats or stats.get("searches_compared", 0) == 0 or stats.get("contents_checked", 0) == 0:
+        raise lib.ToolError(f"vacuous frontends trace: {stats}")
+    samples = []
+    for e in lib.read_ndjson(trace, 200):
+        if e["ev"] == "step" and e["op"]["kind"] in ("commit", "search") and len(samples) < 4:
+            samples.append({"scn": e["scn"], "step": e["step"], "op": e["op"]["kind"],
+                            "req": e["op"]["req"] if e["op"]["kind"] == "search" else {},
+                            "obs": {fe: {k: o[k] for k in ("ran", "ok", "contents", "res")} for fe, o in e["obs"].items()}})
+    v.coverage.update({
+        "states": mc["distinct"] + s["events"], "transitions": mc["states"] + s["events"],
+        "mc_states": mc["distinct"], "mc_bounds": mc["bounds"], "mc_variants_refuted": mc["refuted"],
+        "traces_validated_against_impl": s["scenarios"],
+        "tlc_generated_histories": ncases,
+        "trace_events": s["events"], "operations": s["steps"], "searches": s["searches"],
+        "cli_processes": s["cli_processes"],
+        "search_results_compared_with_reference": stats.get("searches_compared", 0),
+        "contents_observations_checked": stats.get("contents_checked", 0),
+        "front_ends": ["lib", "libffi", "cli", "http", "ffi"],
+        "samples": samples,
+        "exhaustive": False,
+    })
+    v.assumptions += [
+        "the library executions use the index options every front end fixes (BM25 k1 0.9, b 0.4, positions on, filesystem storage)",
+        "BM25 statistics are per segment: the C API (add = add_document + commit) is compared with a library execution that commits every document on its own; cli and http are compared with a library execution that commits where the history commits",
+        "operations the C API cannot express (init with a schema, delete, compact) are performed through the library between a close and a reopen of the handle; searches it cannot express (top-level filter, sort, execution other than wand, return_stored false) are skipped for ffi",
+        "a rejected document sits in a batch of its own (what a front end does with the valid part of a partly rejected batch is not specified)",
+        "compared per search: ok/err, ids in order, score*1e4 rounded, stored values of the sort fields, next_cursor presence, total_hits_estimate, aggregations JSON; each execution pages with its own cursor",
+        "the CLI is the release binary with default features; the HTTP service runs in-process on a loopback port",
+    ]
